@@ -577,6 +577,10 @@ def template_db() -> str:
     global _TEMPLATE
     if _TEMPLATE and os.path.exists(_TEMPLATE):
         return _TEMPLATE
+    shared = os.environ.get("VERIF_TEMPLATE_DB")
+    if shared and os.path.exists(shared):  # made once by the batch runner before forking
+        _TEMPLATE = shared
+        return shared
     from redun.backends.db import RedunBackendDb
 
     path = os.path.join(scratch_dir(), "template.db")
